@@ -32,10 +32,10 @@ ASSUMPTIONS = [
     "clock frozen with freezegun; host name identical (same process)",
 ]
 BUDGET = {"quick": (160, 4), "thorough": (24000, 16)}
-REQUIRED = ["sibling_histories", "ancestor_matches_pattern", "ancestor_ascmhl", "relative_invocation", "trailing_slash", "dot_invocation", "relocated_verify", "ancestor_glob_chars", "case_colliding_siblings"]
+REQUIRED = ["sibling_histories", "ancestor_matches_pattern", "ancestor_ascmhl", "relative_invocation", "trailing_slash", "dot_invocation", "relocated_verify", "ancestor_glob_chars", "case_colliding_siblings", "create_sf"]
 
 CFG = {
-    "kinds": ["create"] * 8 + ["put_new", "mkdir"],
+    "kinds": ["create"] * 8 + ["create_sf"] * 2 + ["put_new", "mkdir"],
     "min_steps": 1,
     "max_steps": 4,
     "flags": {"-n": 0.15},
@@ -151,7 +151,7 @@ def run_case(scn, ctx):
         w.build(locB, scn["tree"])
         extra = ["-i", pat] if pat else []
         for step in scn["steps"]:
-            if step["op"] != "create":
+            if step["op"] not in ("create", "create_sf"):
                 hist.apply_step(w, sA, step)
                 hist.apply_step(w, sB, step)
                 continue
@@ -165,6 +165,10 @@ def run_case(scn, ctx):
             for f in step["formats"]:
                 args += ["-h", f]
             args += list(step.get("flags", ())) + extra
+            for sfp in step.get("sf", ()) or ():
+                args += ["-sf", w.abs(hist.wpath(sB, sfp))]
+            if step["op"] == "create_sf":
+                feats.add("create_sf")
             form = scn["form"]
             cwd = None
             if form == "abs":
@@ -184,7 +188,7 @@ def run_case(scn, ctx):
                 feats.add("dot_invocation")
             with permuted_listing(scn["perm"]):
                 rB = w.run("create", [a0] + args, cwd=cwd, frozen=FROZEN)
-            require(rA.exc is None and rA.exit_code == 0, "setup", "location A: " + rA.brief(), rA)
+            require(rA.exc is None and rA.exit_code in (0, 11), "setup", "location A: " + rA.brief(), rA)
             require(rB.exc is None, "no-abort", "location B: " + rB.brief(), rB)
             require(rB.exit_code == rA.exit_code, "same-exit", "A: %s / B: %s" % (rA.brief(), rB.brief()), rB)
             fa = {p[len(locA):]: b for p, b in w.asc_files(locA).items()}
